@@ -2,6 +2,7 @@
 """print the prompt for a seeding sub-agent for property Cxx (only the property text, no /verif content)"""
 import json, sys
 pid = sys.argv[1]
+ROUND = sys.argv[2] if len(sys.argv) > 2 else ""
 for l in open('/verif/properties.jsonl'):
     p = json.loads(l)
     if p['id'] == pid:
@@ -28,3 +29,13 @@ For each change i ∈ {{1,2}} write into {out}/change<i>/:
   - demo.rs         : a self-contained integration test file (to be placed at tests/seed_demo.rs of the crate, uses only the crate's public API plus dev-dependencies already in Cargo.toml such as tempfile) that FAILS with the change and PASSES without it; run it as `cargo test --offline --test seed_demo` (add `--features …` only if needed and say so);
   - meta.json       : {{"property": "{pid}", "summary": "...", "mechanism": "...", "needs_to_manifest": "...", "files_touched": [...], "demo_cmd": "...", "verified": {{"compiles_default": true, "compiles_with_features": true, "suite_unchanged": true, "demo_fails_with_change": true, "demo_passes_without": true}}}}
 Verify every one of those five facts yourself by running the commands in your worktree (apply the patch, run, `git checkout -- src` to undo, run again) and only claim what you observed. Leave the worktree clean (no uncommitted changes, no tests/seed_demo.rs left behind) when you finish. In your final message give a 5-line summary per change.""")
+
+if ROUND == "r5":
+    print(f"""
+ADDITIONAL REQUIREMENTS FOR THIS ROUND (they override the above where they differ). Earlier rounds of this exercise already produced the obvious mutations of the anchor functions (flipped comparisons, off-by-ones, dropped sorts, missing flushes, byte/char confusions, stale caches after restart, narrowed critical sections). This round asks for changes of a DIFFERENT character; pick two of these kinds, one per change:
+  (1) the edit lives in a file OTHER than the property's code anchors (a helper, a builder, a Drop impl, a deserializer, an error path, lib.rs plumbing, a trait default method) and breaks the property only through an interaction with the anchored code;
+  (2) the breakage needs a LONG or numerically special history: the k-th rotation/record/reconfiguration for some k >= 5, a counter or size crossing a power of two or a buffer capacity, an accumulated drift that only shows after many steps;
+  (3) the breakage needs a specific ORDER of public-API calls that is legal but unusual (builder methods in another order, a handle used after another handle, an appender shared by two loggers, the same object reused after an error, flush()/drop at a particular moment);
+  (4) the breakage needs an unusual but legal VALUE class in the data (empty strings, zero, maximum values, non-ASCII or combining characters, names that are prefixes of other names, duplicate entries) in combination with a second condition;
+  (5) the breakage needs a particular thread interleaving or a fault (I/O error, missing directory, full disk simulated by a failing writer, permission change) at one particular point.
+Write the results into {out}/r5_1/ and {out}/r5_2/ (instead of change1/ change2/), same three files each. In meta.json add a field "kind": one of 1..5 as above. The change must read like an honest refactoring or optimisation with a plausible commit message (put it in meta.json as "commit_message"); no dead code, no comments that give the bug away.""")
